@@ -188,18 +188,23 @@ def run(ctx):
                 "the escape sequence itself contains characters that are illegal in an XML name: %s" % bad)
     fx = repo.func(REL, "InfosetFilter.fromXmlName")
     src = " ".join(norm(fx.node).split())
-    r.check("R20.3", "for item in set(self.replacementRegexp.findall(name)): name = name.replace(item, self.unescapeChar(item))" in src,
+    r.idiom("R20.3", "for item in set(self.replacementRegexp.findall(name)): name = name.replace(item, self.unescapeChar(item))" in src,
             "reader-loop", fx.where, "fromXmlName no longer replaces every escape it finds by its decoded character")
 
     # ---- R20.4
     tx = repo.func(REL, "InfosetFilter.toXmlName")
     src = " ".join(norm(tx.node).split())
     p = tx.params()[1]
-    r.check("R20.4", "nameFirst = %s[0]" % p in src and "nameRest = %s[1:]" % p in src and
-            "m = nonXmlNameFirstBMPRegexp.match(nameFirst)" in src, "first-with-first-class", tx.where,
-            "the first character of a name is not tested with the first-character class")
-    r.check("R20.4", "set(nonXmlNameBMPRegexp.findall(nameRest))" in src and "return nameFirstOutput + nameRestOutput" in src,
-            "rest-with-name-class", tx.where, "the remaining characters are not tested with the name-character class")
+    first_ok = ("nameFirst = %s[0]" % p in src and "nonXmlNameFirstBMPRegexp.match(nameFirst)" in src) or \
+        "nonXmlNameFirstBMPRegexp.match(%s[0])" % p in src
+    rest_ok = ("nameRest = %s[1:]" % p in src and "nonXmlNameBMPRegexp.findall(nameRest)" in src) or \
+        "nonXmlNameBMPRegexp.findall(%s[1:])" % p in src
+    r.idiom("R20.4", first_ok, "first-with-first-class", tx.where,
+            "the first character of a name is not tested with the first-character class",
+            wrong=[("nonXmlNameBMPRegexp.match(nameFirst)" in src or "nonXmlNameBMPRegexp.match(%s[0])" % p in src, None)])
+    r.idiom("R20.4", rest_ok and "return nameFirstOutput + nameRestOutput" in src,
+            "rest-with-name-class", tx.where, "the remaining characters are not tested with the name-character class",
+            wrong=[("nonXmlNameFirstBMPRegexp.findall(" in src, None)])
 
     # ---- R20.5
     init = cls.methods["__init__"]
